@@ -5,11 +5,21 @@ from pyvc.contract import *
 from contracts.spec import render as R
 
 
-def lib_parse(text):
+def lib_parse(text, cut=None):
+    """the whole text in one feed() - or in two, cut right before a tag (every token is whole in its chunk)"""
     from ofxtools.Parser import TreeBuilder
     b = TreeBuilder()
-    b.feed(text)
+    if cut is None:
+        b.feed(text)
+    else:
+        b.feed(text[:cut]); b.feed(text[cut:])
     return R.tree_of_element(b.close())
+
+
+def chunk_points(text):
+    # before a start tag only: the optional end tag of a data element is part of that element's token
+    lts = [i for i, ch in enumerate(text) if ch == "<" and i > 0 and text[i + 1:i + 2] not in ("/", "!")]
+    return sorted(set(lts[len(lts) // 3: len(lts) // 3 + 1] + lts[-1:])) if lts else []
 
 
 def check_renderings(it, fn, a):
@@ -38,6 +48,14 @@ def cases_c02(tier):
     # come out still escaped whichever rendering is used
     out += [[t, True] for t in R.trees(3 if tier == "thorough" else 2, datas=R.DATAS[2:])]
     out += [[t, False] for t in R.trees(4 if tier == "thorough" else 3, datas=R.DATAS[2:])]
+    # one tag name used for a data element in one place and for an aggregate in another (never a data element named
+    # like its own parent: that is the inherently ambiguous case), and an aggregate nested in a same-named aggregate
+    def leaf_named_like_parent(node):
+        return (not R.is_leaf(node)) and any((R.is_leaf(c) and c[0] == node[0]) or leaf_named_like_parent(c) for c in node[1])
+    shared = [t for t in R.trees(5 if tier == "thorough" else 4, agg_tags=("A", "AG"), leaf_tags=("AG", "A"), datas=("x",)) if not leaf_named_like_parent(t)]
+    out += [[t, False] for t in shared]
+    nested = [("A", [("A", [("B1", "x")])]), ("A", [("AG", [("A", [("B1", "x")]), ("B1", "y")])]), ("A", [("A", [("A", [])])]), ("A", [("A", []), ("B1", "x"), ("A", [("B1", "y")])])]
+    out += [[t, True] for t in nested]
     return out
 
 
@@ -88,6 +106,15 @@ def check_faults(it, fn, a):
                 bad.append((kind, text, f"accepted as {got}"))
             elif ref is not None and (not lib_ok or got != ref):
                 bad.append((kind, text, f"still a valid body of {ref}, library gives {got}"))
+            # the same body handed over in two pieces (cut before a tag) is judged the same way
+            for cut in chunk_points(text):
+                try:
+                    got2 = lib_parse(text, cut); ok2 = True
+                except Exception as ex:
+                    got2 = f"{type(ex).__name__}"; ok2 = False
+                if ok2 != lib_ok or (ok2 and got2 != got):
+                    bad.append((kind + f" (fed in two pieces, cut at {cut})", text, f"one feed: {got}; two feeds: {got2}"))
+                    break
             if len(bad) >= 3:
                 return bad
     return bad
